@@ -2175,30 +2175,30 @@ impl BytecodeVM {
             }
 
             Op::Lt { dst, left, right } => {
-                let left_val = self.get_reg(left).to_number();
-                let right_val = self.get_reg(right).to_number();
-                self.set_reg(dst, JsValue::Boolean(left_val < right_val));
+                let (l, r) = (self.get_reg(left).clone(), self.get_reg(right).clone());
+                let result = interp.less_than(&l, &r, true)? == Some(true);
+                self.set_reg(dst, JsValue::Boolean(result));
                 Ok(OpResult::Continue)
             }
 
             Op::LtEq { dst, left, right } => {
-                let left_val = self.get_reg(left).to_number();
-                let right_val = self.get_reg(right).to_number();
-                self.set_reg(dst, JsValue::Boolean(left_val <= right_val));
+                let (l, r) = (self.get_reg(left).clone(), self.get_reg(right).clone());
+                let result = interp.less_than(&r, &l, false)? == Some(false);
+                self.set_reg(dst, JsValue::Boolean(result));
                 Ok(OpResult::Continue)
             }
 
             Op::Gt { dst, left, right } => {
-                let left_val = self.get_reg(left).to_number();
-                let right_val = self.get_reg(right).to_number();
-                self.set_reg(dst, JsValue::Boolean(left_val > right_val));
+                let (l, r) = (self.get_reg(left).clone(), self.get_reg(right).clone());
+                let result = interp.less_than(&r, &l, false)? == Some(true);
+                self.set_reg(dst, JsValue::Boolean(result));
                 Ok(OpResult::Continue)
             }
 
             Op::GtEq { dst, left, right } => {
-                let left_val = self.get_reg(left).to_number();
-                let right_val = self.get_reg(right).to_number();
-                self.set_reg(dst, JsValue::Boolean(left_val >= right_val));
+                let (l, r) = (self.get_reg(left).clone(), self.get_reg(right).clone());
+                let result = interp.less_than(&l, &r, true)? == Some(false);
+                self.set_reg(dst, JsValue::Boolean(result));
                 Ok(OpResult::Continue)
             }
 
